@@ -29,7 +29,8 @@
          `C14_view_derived` (derived properties of reachable views).
   Regression (not a clause), in Props/C14Regress.lean: S7-C14 `S7_C14_layout_test_accepts_foreign` (against `C14_combine_defined_iff`), S5-C14
          `S5_C14_putmask_counterexample` (against `C14_nested_subset_exact`), S6-C14 `S6_C14_cached_unique_counterexample`, S4-C14
-         `S4_C14_stale_plate_table_counterexample` (with the general `pnamesViaPmap_of_consistent`).
+         `S4_C14_stale_plate_table_counterexample` (with the general `pnamesViaPmap_of_consistent`), S8-C14 `S8_C14_platewise_unobserved_counterexample`
+         (against `C14_split_rowwise`, with the general `unobservedByPlates_of_uniform`).
   harness-only: aliasing / in-place writes (item 2); numpy boolean indexing, np.where scatter and np.unique(axis=0, return_index) agreeing with
          maskFilter / scatter / first occurrence (tie); `single_treatment_effects` values (float means; `C14_attr_generic` covers the row selection).
 -/
